@@ -271,6 +271,7 @@ pub fn emit_one_match(match_len: u32, match_dist: u32) -> OneMatch {
     // What `flush_block` does to the flag byte before encoding the LZ codes.
     lz.init_flag();
     let ok = compress_lz_codes(&huff, &mut out, &lz.codes, lz.code_position).is_ok();
+    out.pad_to_bytes();
     let len = if ok { out.inner_pos } else { usize::MAX };
     let mut bytes = [0u8; 8];
     bytes.copy_from_slice(&buf[..8]);
